@@ -3,7 +3,8 @@ import itertools
 import os
 
 from .. import rt, stubs
-from ..engine import Harness
+from ..engine import Harness, Direct
+from . import tokfam
 
 ID = "C14"
 M = {}
@@ -25,6 +26,7 @@ META = {
     "out": ["nodes that are not in the graph", "sequence alphabets beyond ACGTN", "paths longer than 4 steps"],
     "assumptions": ["model file system for the GFA / path file / output", "selectors range over the stated finite menus"],
 }
+META["explanation"] += '  Segment names come from four sets (plain letters; s1 / s1.2 / s12; HG002#1#ctg7 / chr1:5-9 / chr1; 1 / x_y|z=; / 1-alt) spread over the harnesses.  tokens/gfa.py: the tokenizer of extract_path decided as a language by z3.'
 
 SEQ = {"a": "AAC", "b": "GT", "c": "CCGA"}
 COMP = {"A": "T", "C": "G", "G": "C", "T": "A", "N": "N"}
@@ -71,12 +73,31 @@ def expected(links, walk):
     return spell(walk)
 
 
+# external segment names (GFA allows any printable character except white space; a path step ends at the next > or <)
+NAMESETS = [{"a": "a", "b": "b", "c": "c"}, {"a": "s1", "b": "s1.2", "c": "s12"}, {"a": "HG002#1#ctg7", "b": "chr1:5-9", "c": "chr1"},
+            {"a": "1", "b": "x_y|z=;", "c": "1-alt"}]
+NAMESET = [0]
+
+
+def ext(n):
+    return NAMESETS[NAMESET[0]][n]
+
+
+def ptext(walk):
+    return "".join(o + ext(n) for o, n in walk)
+
+
+def pwalk(p):
+    """menu path text (single-letter ids) -> walk"""
+    return [(p[i], p[i + 1]) for i in range(0, len(p), 2)]
+
+
 LINE_ORDER = [0]  # 0: S lines then L lines; 1: L lines first; 2: every segment followed by the links declared from it
 
 
 def gfa_lines(nodes, links, extra=()):
-    sl = ["S\t%s\t%s\tLN:i:%d\n" % (n, SEQ[n], len(SEQ[n])) for n in nodes]
-    ll = ["L\t%s\t%s\t%s\t%s\t0M\n" % l for l in links]
+    sl = ["S\t%s\t%s\tLN:i:%d\n" % (ext(n), SEQ[n], len(SEQ[n])) for n in nodes]
+    ll = ["L\t%s\t%s\t%s\t%s\t0M\n" % (ext(l[0]), l[1], ext(l[2]), l[3]) for l in links]
     if LINE_ORDER[0] == 1:
         body = ll + sl
     elif LINE_ORDER[0] == 2:
@@ -112,6 +133,7 @@ def harnesses(tier):
         for o in "><":
             for n in "ab":
                 hs.append({"id": "walk4/%s%s" % (o, n), "params": {"kind": "walk4", "first": [o, n]}, "timeout": 1800})
+    hs.append(tokfam.harness("C14", "gaftools/gfa.py"))
     return hs
 
 
@@ -130,6 +152,8 @@ def variants(n1, o1, n2, o2):
 
 
 def build(params):
+    if params.get("kind") == "tokens":
+        return Direct(lambda: tokfam.run(params))
     kind = params["kind"]
     if kind == "step":
         link1 = ALL_LINKS2[params["link"]]
@@ -138,13 +162,14 @@ def build(params):
 
         def case(l2, x, ox, y, oy):
             LINE_ORDER[0] = params["link"] % 3
+            NAMESET[0] = params["link"] % 4
             links = [link1]
             second = pick(l2, ALL_LINKS2 + [None])
             if second is not None:
                 links.append(second)
             walk = [(pick(ox, "><"), pick(x, "ab")), (pick(oy, "><"), pick(y, "ab"))]
             g = load_graph(gfa_lines("ab", links))
-            path = "".join(o + n for o, n in walk)
+            path = ptext(walk)
             got = g.extract_path(path)
             want = expected(links, walk)
             if got != want:
@@ -164,6 +189,7 @@ def build(params):
 
         def case(*a):
             LINE_ORDER[0] = ("abc".index(n0) + (1 if o0 == "<" else 0)) % 3
+            NAMESET[0] = ("abc".index(n0) + (2 if o0 == "<" else 0)) % 4
             walk = [(o0, n0)]
             links = []
             for i in range(nsteps - 1):
@@ -172,13 +198,13 @@ def build(params):
                 links += pick(v, variants(walk[-1][1], walk[-1][0], step[1], step[0]))
                 walk.append(step)
             g = load_graph(gfa_lines("abc", links))
-            path = "".join(o + n for o, n in walk)
+            path = ptext(walk)
             got = g.extract_path(path)
             want = expected(links, walk)
             if got != want:
                 return "extract_path(%s) with links %r returned %r, expected %r" % (path, links, got, want)
             rwalk = [(">" if o == "<" else "<", n) for o, n in reversed(walk)]
-            rpath = "".join(o + n for o, n in rwalk)
+            rpath = ptext(rwalk)
             rgot = g.extract_path(rpath)
             if (rgot != "") != (got != ""):
                 return "reversed walk %s accepted=%r but walk %s accepted=%r" % (rpath, rgot != "", path, got != "")
@@ -197,20 +223,21 @@ def build(params):
 
         def case(p0, p1, p2):
             LINE_ORDER[0] = (count + params["fasta"]) % 3
+            NAMESET[0] = (2 * count + params["fasta"] + 1) % 4
             FP = M["FP"]
             e = stubs.env()
             e.files["g.gfa"] = stubs.MFile("text", gfa_lines("abc", LINKS), None)
             fa = params["fasta"]
             paths = [pick(p, menu) for p in (p0, p1, p2)][:count]
-            e.files["paths.txt"] = stubs.MFile("text", [p + "\n" for p in paths], None)
+            e.files["paths.txt"] = stubs.MFile("text", [ptext(pwalk(p)) + "\n" for p in paths], None)
             fasta = bool(pick(fa, [0, 1]))
             FP.run("g.gfa", "paths.txt", output="o.txt", fasta=fasta)
             out = [l.rstrip("\n") for l in e.files["o.txt"].lines]
             want = []
             for p in paths:
-                walk = [(p[i], p[i + 1]) for i in range(0, len(p), 2)]
+                walk = pwalk(p)
                 if fasta:
-                    want.append(">seq_" + p)
+                    want.append(">seq_" + ptext(walk))
                 want.append(expected(LINKS, walk))
             # an empty sequence is written as an empty line
             if out != want:
@@ -224,18 +251,19 @@ def build(params):
 
         def case(p0, fa):
             LINE_ORDER[0] = 2
+            NAMESET[0] = 2
             FP = M["FP"]
             e = stubs.env()
             # an earlier call on another graph (no links at all) must leave nothing behind
             e.files["g0.gfa"] = stubs.MFile("text", gfa_lines("abc", []), None)
-            FP.run("g0.gfa", ">a>b", output="o0.txt", fasta=False)
+            FP.run("g0.gfa", ptext(pwalk(">a>b")), output="o0.txt", fasta=False)
             e.files["g.gfa"] = stubs.MFile("text", gfa_lines("abc", LINKS), None)
             p = pick(p0, MENU)
             fasta = bool(pick(fa, [0, 1]))
-            FP.run("g.gfa", p, output="o.txt", fasta=fasta)
+            walk = pwalk(p)
+            FP.run("g.gfa", ptext(walk), output="o.txt", fasta=fasta)
             out = [l.rstrip("\n") for l in e.files["o.txt"].lines]
-            walk = [(p[i], p[i + 1]) for i in range(0, len(p), 2)]
-            want = ([">seq_" + p] if fasta else []) + [expected(LINKS, walk)]
+            want = ([">seq_" + ptext(walk)] if fasta else []) + [expected(LINKS, walk)]
             if out != want:
                 return "find_path wrote %r, expected %r" % (out, want)
             return None
@@ -245,6 +273,8 @@ def build(params):
 
 
 def replay(params, model, wd):
+    if params.get("kind") == "tokens":
+        return tokfam.replay(params, model, wd)
     import gaftools.cli.find_path as FP
 
     kind = params["kind"]
@@ -254,12 +284,16 @@ def replay(params, model, wd):
     fasta = False
     if kind == "step":
         LINE_ORDER[0] = params["link"] % 3
+        NAMESET[0] = params["link"] % 4
     elif kind in ("walk", "walk4"):
         LINE_ORDER[0] = ("abc".index(params["first"][1]) + (1 if params["first"][0] == "<" else 0)) % 3
+        NAMESET[0] = ("abc".index(params["first"][1]) + (2 if params["first"][0] == "<" else 0)) % 4
     elif kind == "file":
         LINE_ORDER[0] = (params["count"] + params["fasta"]) % 3
+        NAMESET[0] = (2 * params["count"] + params["fasta"] + 1) % 4
     else:
         LINE_ORDER[0] = 2
+        NAMESET[0] = 2
     reqs = []
     if kind == "step":
         links = [ALL_LINKS2[params["link"]]]
@@ -295,7 +329,7 @@ def replay(params, model, wd):
             fasta = bool(a[1])
     gfa = os.path.join(wd, "g.gfa")
     open(gfa, "w").write("".join(gfa_lines(nodes, links)))
-    paths = ["".join(o + n for o, n in w) for w in reqs]
+    paths = [ptext(w) for w in reqs]
     if kind == "single":
         inp = paths[0]
     else:
